@@ -56,7 +56,7 @@ func (vc *VC) heapOf(st *State, c *Component) string {
 	}
 	// ghost state of a channel producer: nothing has been sent at function entry
 	if st.epoch == 0 {
-		if strings.HasPrefix(c.Name, "ChanFinal_") {
+		if strings.HasPrefix(c.Name, "ChanFinal_") || strings.HasPrefix(c.Name, "ChanDrained_") {
 			return "false"
 		}
 		if strings.HasPrefix(c.Name, "ChanCount_") {
